@@ -278,4 +278,12 @@ def genOk (n : Nat) (g : String × Bool × List Nat × List Nat) : Bool :=
 def gensOk (n : Nat) (gs : List (String × Bool × List Nat × List Nat)) : Bool :=
   gs.map (·.1) == expectedGenerators && gs.all (genOk n)
 
+/-- `CreateSamplingMask.__call__`: `seed = None if not use_seed else tuple(map(ord, str(filename)))`, then
+`mask_func(shape=shape, seed=seed, return_acs=…)` — the seed handed to the generator -/
+def transformSeed {Seed F : Type} (useSeed : Bool) (seedOf : F → Seed) (filename : F) : Option Seed :=
+  if useSeed then some (seedOf filename) else none
+
+/-- generated facts about the seed plumbing `(fact, holds)`: all must hold -/
+def plumbingOk (t : List (String × Bool)) : Bool := !t.isEmpty && t.all fun f => f.2
+
 end DirectVerif.Rng
